@@ -650,7 +650,9 @@ func Shapes(thorough bool) []shape.Shape {
 		ks := pagePads(bs.size)
 		if thorough {
 			ks = append([]int{1, 7, 8, 9, 15, 16}, ks...)
-			ks = append(ks, pagePads(bs.size + 4096)...)
+			for _, k := range pagePads(bs.size) {
+				ks = append(ks, k+4096) // the same residues one page further
+			}
 		} else if i != 1 {
 			// quick: the full page ladder on one slice, the exact page
 			// multiple on the others
@@ -720,13 +722,13 @@ func Entitlements() []byte {
 }
 
 // Resources returns a CodeResources-style resource manifest sealing
-// InfoPlist() as Info.plist and an 8-byte PkgInfo.
+// InfoPlist() as Info.plist, an 8-byte PkgInfo and one resource file.
 func Resources() []byte {
 	type res struct {
 		name string
 		data []byte
 	}
-	files := []res{{"Info.plist", InfoPlist()}, {"PkgInfo", []byte("APPL????")}}
+	files := []res{{"Info.plist", InfoPlist()}, {"PkgInfo", []byte("APPL????")}, {"res.txt", []byte("verif resource\n")}}
 	b64 := base64.StdEncoding.EncodeToString
 	var s bytes.Buffer
 	s.WriteString(plistHead + "<dict>\n\t<key>files</key>\n\t<dict>\n")
@@ -735,7 +737,7 @@ func Resources() []byte {
 		fmt.Fprintf(&s, "\t\t<key>%s</key>\n\t\t<data>\n\t\t%s\n\t\t</data>\n", f.name, b64(h[:]))
 	}
 	s.WriteString("\t</dict>\n\t<key>files2</key>\n\t<dict>\n")
-	for _, f := range files[1:] { // files2 leaves Info.plist to the code directory's special slot
+	for _, f := range files[2:] { // the default rules2 omit Info.plist and PkgInfo
 		h1 := sha1.Sum(f.data)
 		h2 := sha256.Sum256(f.data)
 		fmt.Fprintf(&s, "\t\t<key>%s</key>\n\t\t<dict>\n\t\t\t<key>hash</key>\n\t\t\t<data>\n\t\t\t%s\n\t\t\t</data>\n\t\t\t<key>hash2</key>\n\t\t\t<data>\n\t\t\t%s\n\t\t\t</data>\n\t\t</dict>\n", f.name, b64(h1[:]), b64(h2[:]))
